@@ -48,7 +48,7 @@ ASSUMPTIONS = [
     "an exception escaping pump_proxy_event is tolerated (the run loop logs and continues) as long as the flow is handed back",
 ]
 MUST_REACH = {"preempts_after_handback": 4, "scenarios": 40, "failpoint_runs": 500, "clean_runs": 40, "taken_flows_released": 30, "state_transfers_compared": 500,
-              "exceptions_escaped_pump": 50, "mitm_side_runs": 6, "e2e_runs": 100, "e2e_states_compared": 150, "session_only_capdata": 5, "locally_served_assets": 3, "line_failpoint_runs": 300, "mitm_history_runs": 6, "owners_gone_before_release": 10, "owners_gone_while_another_avatar_stays": 5, "e2e_owner_left_between_request_and_response": 10,
+              "exceptions_escaped_pump": 50, "mitm_side_runs": 6, "e2e_runs": 100, "e2e_states_compared": 150, "session_only_capdata": 5, "locally_served_assets": 3, "line_failpoint_runs": 300, "mitm_history_runs": 6, "owners_gone_before_release": 10, "owners_gone_while_another_avatar_stays": 5, "rewritten_wrapper_requests": 1, "flows_between_interception_and_hand_back": 3000, "e2e_owner_left_between_request_and_response": 10,
               "deferred_releases": 100, "deferred_events_covered": 7, "deferred_webapp_flows": 5, "waiter_served_flows": 5,
               "waiter_abandoned_scenarios": 15}
 
@@ -409,6 +409,17 @@ def run_scenario(ctx, kind, event_type, behaviour, armed_at, mode="call"):
                         ctx.violation("state-transfer-changed:" + field, "flow state changed across the process boundary",
                                       dict(wit, field=field, before=repr(want[field])[:300], after=repr(got[field])[:300]))
                         break
+        if kind == "wrapper" and behaviour == "rewrite_url" and event_type == "request" and armed_at is None and callbacks:
+            # two features on one flow: an addon rewrites the request, and the proxy sends wrapper requests on to the asset host
+            # (by redirect, or by rewriting the URL once more) - what goes on is the ADDON's request with the asset host put in
+            ctx.count("rewritten_wrapper_requests")
+            st = callbacks[-1][2]
+            back = HippoHTTPFlow.from_state(copy.deepcopy(st), rig.session_manager)
+            where = back.response.headers.get("Location", "") if back.response is not None else back.request.url
+            if "/new/path?x=1" not in where or "rewritten.example.invalid" in where:
+                ctx.violation("rewritten-wrapper-request-lost", "an addon rewrote a wrapper-capability request; what the proxy sent on "
+                              "(redirect target / request URL) is not the rewritten request with the asset host put in",
+                              dict(wit, sent_on=where[:200]))
         if kind == "served" and event_type == "request" and armed_at is None and callbacks:
             ctx.count("locally_served_assets")
             st = callbacks[-1][2]
@@ -564,6 +575,40 @@ def mitm_histories(ctx):
             ctx.violation("mitm-resume-count:burst:" + filler, "a flow was not resumed exactly once for its one hand-back when another "
                           "queue item followed immediately", {"filler": filler, "resumes": len(resumes)})
         ctx.nontrivial(("mitm-burst", filler))
+
+
+def mitm_long_wait(ctx, n_between):
+    """A flow an addon holds for a long while: its request is intercepted, then `n_between` other flows come and go through the
+    same mitmproxy-side addon, and only then the main process hands the first one back. It is still known, gets the state and
+    is resumed once."""
+    from hippolyzer.lib.proxy.http_proxy import IPCInterceptionAddon
+    fc = PicklingFlowContext()
+    addon = IPCInterceptionAddon(fc)
+    first = make_flow("https://www.example.invalid/held-for-long")
+    resumes = []
+    first.resume = lambda: resumes.append(1)
+    addon.request(first)
+    state = first.get_state()
+    state["request"]["path"] = b"/rewritten-while-held"
+    keep = []
+    for i in range(n_between):
+        other = make_flow(f"https://www.example.invalid/other/{i}")
+        other.resume = lambda: None
+        keep.append(other)          # (requests in flight are referenced by their connections)
+        addon.request(other)
+        fc.to_proxy_queue.put(("callback", other.id, other.get_state()))
+        if i % 200 == 199:
+            pump_mitm(addon, rounds=260)
+    pump_mitm(addon, rounds=260)
+    fc.to_proxy_queue.put(("callback", first.id, state))
+    pump_mitm(addon)
+    ctx.ev()
+    ctx.count("mitm_long_waits")
+    ctx.count("flows_between_interception_and_hand_back", n_between)
+    if len(resumes) != 1 or first.request.path != "/rewritten-while-held":
+        ctx.violation("mitm-held-flow-forgotten", "a flow handed back after many other flows had gone through was not given its state "
+                      "and resumed exactly once", {"flows_between": n_between, "resumes": len(resumes), "path": first.request.path})
+    ctx.nontrivial(("mitm-long-wait", n_between))
 
 
 def mitm_view(flow):
@@ -750,6 +795,8 @@ def _server_response(kind):
 def mitm_side(ctx):
     mitm_variants(ctx)
     mitm_histories(ctx)
+    for n_between in (0, 300, 1023, 1024, ctx.pick(1500, 5000)):
+        mitm_long_wait(ctx, n_between)
     for kind in ("asset", "seed", "proxy_only", "unknown", "upload", "temporary"):
         preempt_after_handback(ctx, kind, "viewer", ctx.rng.choice([0, 0, 1, 3]))
     combos = [(k, b, on, ua) for k in URL_KINDS for b in BEHAVIOURS for on in ("request", "response")
